@@ -80,6 +80,7 @@ pub struct Strat {
     pub freeze: Option<(usize, u64)>, // (thread, k): stop thread at its k-th scheduling point
     pub script: Vec<u32>,             // recorded decisions to follow (replay)
     pub max_steps: u64,
+    pub follow: Vec<i32>, // spec -> impl replay: process to move at each model-visible step (-1 = clock tick)
     pub tick_phase: u32, // forced clock ticks for spinning timed waiters only from this phase on
 }
 
@@ -97,6 +98,7 @@ impl Default for Strat {
             script: vec![],
             max_steps: 200_000,
             tick_phase: 0,
+            follow: vec![],
         }
     }
 }
@@ -136,6 +138,9 @@ pub struct Sched {
     pub peek_fn: Option<Box<dyn Fn() -> PeekLite + Send>>,
     pub regions: Vec<(usize, usize, usize, usize)>, // (addr, size, proc, future slot)
     pub stacks: Vec<(usize, usize)>,
+    pub follow_pos: usize,
+    pub follow_div: u32,
+    pub last_kind: Vec<(u32, u64)>,
 }
 
 pub struct G {
@@ -198,6 +203,9 @@ impl Sched {
             peek_fn: None,
             regions: Vec::new(),
             stacks: vec![(0, 0); n],
+            follow_pos: 0,
+            follow_div: 0,
+            last_kind: vec![(0, 0); n],
         }
     }
 
@@ -265,7 +273,55 @@ impl Sched {
     }
 
     /// Pick the next thread to run among the enabled ones; None = quiescent.
+    /// does the specification (Kanal.tla) have an action for this pending hook event?
+    fn model_visible(&self, i: usize) -> bool {
+        let p = match self.pending[i] {
+            Some(p) => p,
+            None => return false,
+        };
+        let mine = {
+            let a = p.addr;
+            (i < self.stacks.len() && a >= self.stacks[i].0 && a < self.stacks[i].1)
+                || self.regions.iter().any(|(ad, sz, pr, _)| *pr == i && a >= *ad && a < ad + sz)
+        };
+        match p.kind {
+            kv::AB_CAS | kv::AB_STORE | kv::A8_LOAD | kv::A8_CAS | kv::A8_STORE | kv::NOW | kv::PARK | kv::UNPARK
+            | kv::FIELD_WRITE | WK_WAKE | H_BEGIN => true,
+            WK_CLONE => p.b == 0,
+            kv::NOTE => p.a == 1 || !mine,
+            kv::CELL_GET => {
+                let (lk, lr) = self.last_kind[i];
+                lk == kv::THREAD_CURRENT || (lk == kv::A8_CAS && lr == 0)
+            }
+            kv::FIELD_READ => mine && self.last_kind[i].0 == kv::A8_LOAD,
+            _ => false,
+        }
+    }
+
     fn decide(&mut self, from: usize) -> Option<usize> {
+        // spec -> impl replay: follow the process order of a TLC-generated behaviour as far as possible
+        while self.follow_pos < self.strat.follow.len() {
+            let e = self.strat.follow[self.follow_pos];
+            if e < 0 {
+                self.now += TICK;
+                self.follow_pos += 1;
+                continue;
+            }
+            let e = e as usize;
+            if e >= self.n || !self.enabled(e, true) {
+                // the model's step is not possible here (finished, blocked, or the code took another path): skip it
+                if e < self.n && self.st[e] == TSt::Done {
+                } else {
+                    self.follow_div += 1;
+                }
+                self.follow_pos += 1;
+                continue;
+            }
+            if self.model_visible(e) {
+                self.follow_pos += 1;
+            }
+            return Some(e);
+        }
         let mut en: Vec<usize> = (0..self.n).filter(|&i| self.enabled(i, false)).collect();
         // threads blocked only by a spurious possibility are offered rarely
         let mut hard: Vec<usize> = en
@@ -419,6 +475,7 @@ impl Sched {
         if self.lock_holder == i {
             self.dirty = true;
         }
+        self.last_kind[i] = (p.kind, 1);
         self.last_ev[i] = self.log.len();
         self.log.push(Ev {
             t: i,
@@ -452,6 +509,7 @@ impl Sched {
             e.r2 = b;
             (e.kind, e.a)
         };
+        self.last_kind[i] = (kind, a);
         match kind {
             kv::A8_CAS | kv::AB_CAS => {
                 if a == 1 {
@@ -690,6 +748,7 @@ pub struct Outcome {
     pub stuck: bool,
     pub over_budget: bool,
     pub diverged: bool,
+    pub follow_div: u32,
     pub stuck_threads: Vec<usize>,
     pub stuck_pending: Vec<u32>,
     pub steps: u64,
@@ -761,6 +820,7 @@ pub fn control(n: usize) -> Outcome {
         stuck: s.stuck,
         over_budget: s.over_budget,
         diverged: s.diverged,
+        follow_div: s.follow_div,
         stuck_threads,
         stuck_pending,
         steps: s.steps,
